@@ -5,7 +5,7 @@ check(s) of the property it breaks to exit 1 with a VIOLATION line; finally requ
 tree to stay silent for the same checks.   usage: tools/selftest.py [id ...]"""
 import json, os, subprocess, sys, glob
 ids = sys.argv[1:] or sorted(os.path.basename(os.path.dirname(p)) for p in glob.glob('/verif/seeded/*/meta.json'))
-env = dict(os.environ, VERIF_WORK='/verif/work_selftest', VERIF_EVIDENCE_DIR='/verif/work_selftest/evidence', VERIF_REPLAY_DIR='/verif/work_selftest/replay')
+env = dict(os.environ, VERIF_WORK='/verif/work_selftest', VERIF_TARGET='/verif/work_selftest/target', VERIF_EVIDENCE_DIR='/verif/work_selftest/evidence', VERIF_REPLAY_DIR='/verif/work_selftest/replay')
 ok = True
 for sid in ids:
     meta = json.load(open('/verif/seeded/%s/meta.json' % sid))
